@@ -1338,8 +1338,13 @@ namespace bloch::runtime {
         if (m_gcThread.joinable())
             return;
 #ifdef BLOCH_VERIF
-        if (verif::gc().timerOff)
+        if (verif::gc().timerOff) {
+            // "pressure" keeps everything but the timer: the collection at the end of the run
+            // (requested where the timer thread is joined) still takes place
+            if (!verif::gc().suppressRequests && !verif::gc().forceAll)
+                m_gcThreadStarted = true;
             return;
+        }
 #endif
         m_stopGc = false;
         m_gcRequested = false;
